@@ -38,14 +38,16 @@ NoPass == [k |-> "nopass"]
 NoObs == [t |-> "noobs"]
 NotBlocked == [k |-> "no"]
 
+NoName == [t |-> "noname"]
 NewConn(S) == [db |-> 0, authed |-> (S.pass = NoPass), multi |-> FALSE, queue |-> <<>>, qerr |-> FALSE,
-               watch |-> <<>>, subs |-> {}, psubs |-> {}, inbox |-> <<>>, closing |-> FALSE, blocked |-> NotBlocked]
+               watch |-> <<>>, subs |-> {}, psubs |-> {}, inbox |-> <<>>, closing |-> FALSE, blocked |-> NotBlocked,
+               name |-> NoName, sid |-> 0]
 NoDump == [k |-> "nodump"]
 NoBg == [k |-> "nobg"]
 Absent == [t |-> "absent"]
 NoAof == [k |-> "noaof"]
 InitS == [dbs |-> [d \in DBs |-> EmptyK], conns |-> <<>>, pass |-> NoPass, bseq |-> 0, scans |-> <<>>, disk |-> NoDump,
-          aof |-> NoAof, scripts |-> {}, bg |-> NoBg, progs |-> <<>>]
+          aof |-> NoAof, scripts |-> {}, bg |-> NoBg, progs |-> <<>>, killed |-> {}]
 
 SOut(r, S) == {[r |-> r, S |-> S, dv |-> {}]}
 SFail(S) == SOut(RErr, S)
@@ -381,6 +383,55 @@ RegProg(S, a, prog, sha) ==
               ELSE IF name = "SCRIPT" /\ Len(a) = 3 THEN {a[3], sha} ELSE {}
   IN [S EXCEPT !.progs = [k \in keys |-> [prog |-> prog, sha |-> sha]] @@ @]
 
+(* THE CONNECTION REGISTRY: CLIENT ID | GETNAME | SETNAME name | KILL ID n | LIST.
+   conn.sid is the identifier the server gave the connection (0 until a CLIENT ID reply revealed it); identifiers are
+   unique and grow with the order in which connections were accepted (the driver numbers its connections in that order).
+   A killed connection stays in S.killed until the client has noticed (its next request is answered by a close). *)
+NameOK(b) == \A i \in 1..Len(b) : b[i] >= 33 /\ b[i] <= 126      \* no spaces, newlines or control bytes
+OpenNotClosing(S) == {x \in DOMAIN S.conns : ~S.conns[x].closing}
+CmdCLIENT(S, c, a, obs) ==
+  IF Len(a) < 2 THEN SFail(S)
+  ELSE LET sub == Upper(a[2]) cn == S.conns[c] IN
+    CASE sub = L_ID ->
+           IF Len(a) # 2 THEN SFail(S)
+           ELSE IF cn.sid # 0 THEN SOut(RInt(cn.sid), S)
+           ELSE IF obs.t = "int" /\ IsInt(obs.v) /\ SmallOf(obs.v) > 0 /\ SmallOf(obs.v) < 1000000000
+           THEN LET n == SmallOf(obs.v) IN
+                IF \A x \in (DOMAIN S.conns) \ {c} : S.conns[x].sid # 0 =>
+                      (IF x < c THEN S.conns[x].sid < n ELSE S.conns[x].sid > n)
+                THEN SOut(RInt(n), [S EXCEPT !.conns[c].sid = n]) ELSE {}
+           ELSE SOut(RIntRange(1, 999999999), S)
+      [] sub = L_GETNAME ->
+           IF Len(a) # 2 THEN SFail(S)
+           ELSE SOut(IF cn.name.t = "noname" THEN RNil ELSE RBulk(cn.name.v), S)
+      [] sub = L_SETNAME ->
+           IF Len(a) # 3 THEN SFail(S)
+           ELSE IF ~NameOK(a[3]) THEN SFail(S)
+           ELSE SOut(ROk, [S EXCEPT !.conns[c].name = IF a[3] = <<>> THEN NoName ELSE [t |-> "name", v |-> a[3]]])
+      [] sub = L_KILL ->
+           IF Len(a) = 4 /\ Upper(a[3]) = L_ID
+           THEN (IF ~IsInt(a[4]) \/ IntOf(a[4]).neg THEN SFail(S)
+                 ELSE LET n == SmallOf(a[4])
+                          victims == {x \in (DOMAIN S.conns) \ S.killed : S.conns[x].sid = n /\ n # 0}
+                          unknown == {x \in (DOMAIN S.conns) \ {c} : S.conns[x].sid = 0}
+                      IN IF c \in victims THEN SFail(S)                   \* a connection cannot kill itself
+                         ELSE IF victims # {}
+                         THEN (* the victim's subscriptions, transaction, watches and blocking registrations end at once;
+                                 a victim that has just closed its end may be gone already *)
+                              SOut(IF \E x \in victims : S.conns[x].closing THEN ROneOf({RInt(0), RInt(1)}) ELSE RInt(1), [S EXCEPT !.killed = @ \cup victims,
+                                               !.conns = [x \in DOMAIN S.conns |->
+                                                  IF x \in victims THEN [NewConn(S) EXCEPT !.sid = S.conns[x].sid]
+                                                  ELSE S.conns[x]]])
+                         ELSE IF unknown = {} THEN SOut(RInt(0), S)
+                         ELSE SOut(RAny, S))       \* it may name a connection whose identifier was never asked for
+           ELSE IF Len(a) < 3 THEN SFail(S)
+           ELSE SOut(RAny, S)                      \* other filters: not prescribed (never generated)
+      [] sub = L_LIST ->
+           IF Len(a) # 2 THEN SOut(RAny, S)
+           ELSE LET alive == (DOMAIN S.conns) \ S.killed IN
+                SOut(RLines(Cardinality(alive \cap OpenNotClosing(S)), Cardinality(alive)), S)
+      [] OTHER -> SOut(RAny, S)
+
 (* SCRIPT LOAD body | SCRIPT EXISTS sha... | SCRIPT FLUSH *)
 CmdSCRIPT(S, a, obs) ==
   IF Len(a) < 2 THEN SFail(S)
@@ -511,6 +562,7 @@ Exec1(S, c, a, tm, obs, inTxn) ==
                [] name = "EVAL" -> (IF inTxn THEN CmdEVAL(S, c, a, tm, ProgObs(S, a, obs), FALSE) ELSE CmdEVAL(S, c, a, tm, obs, FALSE))
                [] name = "EVALSHA" -> (IF inTxn THEN CmdEVAL(S, c, a, tm, ProgObs(S, a, obs), TRUE) ELSE CmdEVAL(S, c, a, tm, obs, TRUE))
                [] name = "SCRIPT" -> CmdSCRIPT(S, a, obs)
+               [] name = "CLIENT" -> (IF inTxn THEN SOut(RAny, S) ELSE CmdCLIENT(S, c, a, obs))
                [] name = "BLPOP" -> CmdBPOP(S, c, a, tm, obs, TRUE, inTxn)
                [] name = "BRPOP" -> CmdBPOP(S, c, a, tm, obs, FALSE, inTxn)
                [] name = "?" -> SFail(S)
@@ -531,7 +583,8 @@ AuthGate(S, c, a) ==
 Step(S, c, a, tm, obs) ==
   IF Len(a) = 0 THEN SFail(S)
   ELSE LET name == NameOf(a) cn == S.conns[c] IN
-    IF IsBlocked(cn) THEN {}      \* requests behind a blocking pop wait until the client is served or timed out
+    IF c \in S.killed THEN SOut(RClosed, S)     \* killed by CLIENT KILL: the server has closed the connection
+    ELSE IF IsBlocked(cn) THEN {}      \* requests behind a blocking pop wait until the client is served or timed out
     ELSE IF S.pass # NoPass /\ ~cn.authed THEN AuthGate(S, c, a)
     ELSE IF cn.multi /\ name \notin TxnControl
     THEN (* queued; an unknown command may also be refused at once, which dooms the EXEC *)
@@ -639,7 +692,8 @@ AofStep(S0, S1, c, a, entries, tm, obs) ==
           ELSE {[S |-> [S1 EXCEPT !.aof = [dbs |-> S1.dbs, db |-> S0.aof.db, scripts |-> S0.aof.scripts]], dv |-> {dn}] : dn \in resync}
 
 (* a connection goes away: its transaction and watches vanish with it *)
-DropConn(S, c) == [S EXCEPT !.conns = [x \in (DOMAIN S.conns) \ {c} |-> S.conns[x]],
+DropConn(S, c) == [S EXCEPT !.killed = @ \ {c},
+                            !.conns = [x \in (DOMAIN S.conns) \ {c} |-> S.conns[x]],
                             !.scans = [id \in {y \in DOMAIN S.scans : y[1] # c} |-> S.scans[id]]]
 
 =============================================================================
